@@ -9,6 +9,7 @@ pub mod c09;
 pub mod c11;
 pub mod c12;
 pub mod c13;
+pub mod c14;
 pub mod ustream;
 
 use crate::report::Report;
@@ -22,6 +23,7 @@ pub fn dispatch(args: &Args, rep: &Arc<Report>) -> bool {
         "c03" => c03::run(args, rep),
         "c05" => c05::run(args, rep),
         "c08" => c08::run(args, rep),
+        "c14" => c14::run(args, rep),
         "c15" => c15::run(args, rep),
         "c04" => c04::run(args, rep),
         "c09" => c09::run(args, rep),
